@@ -78,6 +78,12 @@ func distOrNil(d h.DistSpec) ring.DistributionParameters {
 		return ring.Ternary{P: d.P, H: d.H}
 	case "uniform":
 		return ring.Uniform{}
+	case "ternaryPNaN": // NaN cannot be written in the JSON of a case: it has its own kinds
+		return ring.Ternary{P: math.NaN()}
+	case "gaussSigmaNaN":
+		return ring.DiscreteGaussian{Sigma: math.NaN(), Bound: d.Bound}
+	case "gaussBoundNaN":
+		return ring.DiscreteGaussian{Sigma: d.Sigma, Bound: math.NaN()}
 	}
 	return d.Lattigo()
 }
@@ -89,18 +95,18 @@ func distViolations(d h.DistSpec, n int, secret bool) (v []string) {
 		if d.H < 0 {
 			v = append(v, "H<0")
 		}
-		if d.H > n {
-			v = append(v, "H>N")
-		}
+		// H > N is tolerated (the sampler caps it; lattigo's bootstrapping tests use it)
 		if d.P < 0 {
 			v = append(v, "P<0")
 		}
-		if d.P > 1 {
-			v = append(v, "P>1")
+		if d.P >= 1 {
+			v = append(v, "P>=1")
 		}
 		if d.P != 0 && d.H != 0 {
 			v = append(v, "P-and-H")
 		}
+	case "ternaryPNaN", "gaussSigmaNaN", "gaussBoundNaN":
+		v = append(v, "NaN")
 	case "gauss":
 		if d.Sigma < 0 {
 			v = append(v, "sigma<0")
@@ -1455,13 +1461,27 @@ func genLiteral(t *rapid.T) LitCase {
 	case "scaleNeg":
 		c.LogScale = rapid.SampledFrom([]int{-1, -20, 0, 128, 64, 65}).Draw(t, "oddScale")
 	case "badDist":
-		// never NaN (TernarySampler recurses until the stack overflows: the process dies) and never P = 1
+		// NaN and P = 1 included: no sampling is ever done on parameters with such a distribution (NaN makes TernarySampler
+		// recurse until the stack overflows, P = 1 panics at the first sampling)
 		n := 1
 		if c.LogN >= 0 && c.LogN < 30 {
 			n = 1 << uint(c.LogN)
 		}
-		switch rapid.IntRange(0, 10).Draw(t, "badDistK") {
+		switch rapid.IntRange(0, 16).Draw(t, "badDistK") {
+		case 11:
+			c.Xs, c.ViaJSON = h.DistSpec{Kind: "ternaryPNaN"}, false
+		case 12:
+			c.Xs = h.DistSpec{Kind: "ternaryP", P: 1}
+		case 13:
+			c.Xe, c.ViaJSON = h.DistSpec{Kind: "gaussSigmaNaN", Bound: 19.2}, false
+		case 14:
+			c.Xe, c.ViaJSON = h.DistSpec{Kind: "gaussBoundNaN", Sigma: 3.2}, false
+		case 15:
+			c.Xe = h.DistSpec{Kind: "ternaryP", P: 1}
+		case 16:
+			c.Xs, c.ViaJSON = h.DistSpec{Kind: "ternaryPNaN"}, false
 		case 0:
+			// tolerated extreme: H above N (capped by the sampler)
 			c.Xs = h.DistSpec{Kind: "ternaryH", H: n + rapid.IntRange(1, n).Draw(t, "hOver")}
 		case 1:
 			c.Xs = h.DistSpec{Kind: "ternaryH", H: -rapid.IntRange(1, 64).Draw(t, "hNeg")}
@@ -1476,7 +1496,7 @@ func genLiteral(t *rapid.T) LitCase {
 		case 6:
 			c.Xe = h.DistSpec{Kind: "gauss", Sigma: 3.2, Bound: -19.2}
 		case 7:
-			c.Xe = h.DistSpec{Kind: "ternaryH", H: n + 1}
+			c.Xe = h.DistSpec{Kind: "ternaryH", H: -1}
 		case 8:
 			c.Xs = h.DistSpec{Kind: "uniform"}
 		case 9:
